@@ -6,11 +6,11 @@ _parts=""
 if [ "$tier" = "thorough" ]; then
   _f2="c01 c02 c03 c05 c06 c07 c08 c09 c10 c11 c12 c13 c17 c18 c19"
 else
-  _f2="c01 c02 c03 c05 c06 c07 c08 c09 c11 c12 c13 c17 c18 c19"
+  _f2="c01 c02 c03 c05 c06 c07 c08 c09 c10 c11 c12 c13 c17 c18 c19"
 fi
 # the two largest thorough spaces (2*10^9 add/sub pairs, all 2^32 floats) stay at their quick size here
 _tier_of() { case "$1" in c01|c08) echo quick ;; *) echo "$tier" ;; esac; }
-build rel c14 $_f2 || exit 2
+build rel c14 || exit 2
 build relcheck c14 $_f2 || exit 2
 for cfg in rel relcheck; do
   NBMC_NO_PYREF=1 NBMC_PART=c14-$cfg NBMC_CONFIG=$cfg "$(bindir $cfg)/c14" "$tier"; _r=$?
